@@ -682,6 +682,9 @@ func readerNextFrameRules(c *Ctx, prop string) {
 				}
 				continue
 			}
+			if np.in.frag != (np.in.op == 0) {
+				continue // a new data frame inside a fragmented message / a stray continuation: refused by CheckHeader (C03)
+			}
 			wantUTF8 := np.in.checkUTF8 && (np.in.op == 1 || (np.in.frag && np.in.op == 0 && np.in.prevText))
 			got := isUTF8(np, np.frameV)
 			if wantUTF8 != got {
